@@ -48,6 +48,24 @@ Tie / search (DESIGN.md §4.2, §5 C06):
        every function node of the type; the given value is passed as argument, assigned, returned,
        put into an array literal, used as the other branch of ?: -- all must be rejected at that
        line; the identical type must be accepted.
+   (d) offence kind x syntactic context x sink (gen_context_family): 16 one-line offences covering every
+       offence kind the property names (assignment to a `let` / to a non-var parameter, argument count
+       more/less, argument kind, const passed to a var parameter, undefined name, undefined attribute,
+       operator arithmetic/comparison, non-bool condition of ?: / if / while, result kind, match omitting
+       an enumerator, unknown exception name), each with a well-typed twin, planted into the int-typed
+       hole of each of 48 context expressions (list comprehension element / generator source / filter /
+       second generator, array literal and dims, record constructor argument, match arm / else arm /
+       scrutinee, if-let branches and scrutinee, for-in body / bound / array, 3-part for body / cond /
+       step, while and do body / cond, lambda body / catch clause / catch-all, nested function body /
+       catch, range bounds, slice bound, string concatenation operands, call arguments, built-in
+       argument, index, ?: and if branches and conditions, tuple element, block statement / let, unary /
+       binary operand, pipe, assignment right side), 1-3 contexts deep (inner values projected to int by
+       index / attribute / call / length), the value of the outermost expression bound by let / var /
+       discarded / returned / passed / assigned, the statement inside a function / nested function /
+       lambda / catch clause, offence optionally on a line of its own.  Complete grid offence x context
+       x sink in the quick tier; the (offence x context x sink) distribution is in the evidence
+       (coverage.context_family).  Oracle: COMPILE_ERROR and the offence's diagnostic on the lines of the
+       statement; every program without offence must compile.
   Corpus: /verif/corpus/C06/*.nev (first line `# expect: accept` | `# expect: reject line=<n>
   key=<key>`), and the negative samples of <repo>/sample (`*.nev.err` with an `error:` line): each
   must be rejected at the first recorded line.
@@ -753,6 +771,331 @@ def run_text_families(ctx, drv, quick):
                     "compiler": (res.get(c["id"]) or {}).get("errs", [])[:2], "source": c["src"][-500:]}, limit=9)
 
 
+# ---- (d) every offence kind x every syntactic context x every sink ----------------------------------
+# An offence is a one-line int-valued expression that breaks exactly one static rule (with a well-typed
+# twin that differs from it in the one offending token); a context is a one-line expression with an
+# int-typed hole; a sink is where the value of the context expression goes.  Nothing here is computed
+# by the compiler under test: the verdict (reject, diagnostic of the offence's rule on the lines of the
+# statement) follows from the construction.
+CF_PRE = """record R { x : int; }
+enum E { a, b, c }
+func f1(a : int) -> int { a + 1 }
+func f2(a : int, c : int) -> int { a + c }
+func fv(var a : int) -> int { a = a + 1; a }
+func i2e(i : int) -> E { E::a }
+func s_int(z : int) -> int { 0 }
+func s_arr(z[D] : int) -> int { 0 }
+func s_rec(z : R) -> int { 0 }
+func s_str(z : string) -> int { 0 }
+func s_fun(z(int) -> int) -> int { 0 }
+func s_rng([f .. t] : range) -> int { 0 }
+func s_tup(z : (int, int)) -> int { 0 }
+func s_slc(z[f .. t] : int) -> int { 0 }"""
+CF_LOCALS = 'let k = 1; var v = 2; let b = true; let r = R(3); let e = E::a; let a = [ 1, 2, 3 ] : int;'
+
+# type of a context expression -> (type text, default value, projection of an expression of that type to int)
+CF_TYPES = {
+    "int": ("int", "0", "({C})"),
+    "slc": ("[..] : int", "([ 7, 8 ] : int)[0 .. 1]", "({C})[0]"),
+    "arr": ("[_] : int", "[ 7 ] : int", "({C})[0]"),
+    "rec": ("R", "R(0)", "({C}).x"),
+    "str": ("string", '"d"', "length({C})"),
+    "fun": ("(int) -> int", "f1", "({C})(1)"),
+    "rng": ("[..] : range", "[ 0 .. 1 ]", "s_rng({C})"),
+    "tup": ("(int, int)", "(0, 0) : (int, int)", "({C})[0]"),
+}
+
+# (offence, ill-typed expression, well-typed twin, diagnostic that names the offence)
+CF_OFFENCES = [
+    ("AssignToLet", "(k = k + 1)", "(v = v + 1)", r"^cannot assign to "),
+    ("AssignToParam", "(p = p + 1)", "(pv = pv + 1)", r"^cannot assign to "),
+    ("ArgCount:more", "f1(1, 2)", "f1(1)", r"^function call type mismatch"),
+    ("ArgCount:less", "f2(1)", "f2(1, 2)", r"^function call type mismatch"),
+    ("ArgKind", "f1(b)", "f1(k)", r"^function call type mismatch"),
+    ("ArgConstToVar", "fv(k)", "fv(v)", r"^function call type mismatch"),
+    ("UndefinedName", "(zz + 1)", "(k + 1)", r"^cannot find identifier zz"),
+    ("UndefinedAttr", "r.nope", "r.x", r"^cannot find attribute|^cannot get record attribute"),
+    ("Operator:arith", "(k + b)", "(k + v)", r"^cannot exec arithmetic"),
+    ("Operator:compare", "((k < b) ? 1 : 0)", "((k < v) ? 1 : 0)", r"^cannot compare types"),
+    ("CondNotBool:?:", "(k ? 1 : 2)", "(b ? 1 : 2)", r"^cannot execute conditional operator on"),
+    ("CondNotBool:if", "(if (k) { 1 } else { 2 })", "(if (b) { 1 } else { 2 })", r"^cannot execute conditional operator on"),
+    ("CondNotBool:while", "(while (k) { 0 })", "(while (b) { 0 })", r"^while loop condition"),
+    ("ReturnKind", "(let func () -> int { b }())", "(let func () -> int { k }())", r"^incorrect return type"),
+    ("MatchOmit", "(match e { E::a -> 1; E::b -> 2; })", "(match e { E::a -> 1; E::b -> 2; E::c -> 3; })",
+     r"^match expression does not cover"),
+    ("UnknownException", "((let func () -> int { 1 } catch (no_such_exception) { 0 })())",
+     "((let func () -> int { 1 } catch (division_by_zero) { 0 })())", r"^unknown exception"),
+]
+CF_GOOD = "(v + 1)"
+
+# (context, expression with an int-typed hole, type of the expression)
+CF_CONTEXTS = [
+    ("listcomp-elem", "[ {X} + x | x in a ] : int", "arr"),
+    ("listcomp-source", "[ x | x in [ {X}, 2 ] : int ] : int", "arr"),
+    ("listcomp-filter", "[ x | x in a; x > {X} ] : int", "arr"),
+    ("listcomp-2nd-generator", "[ x + y | x in a; y in [ {X} ] : int ] : int", "arr"),
+    ("array-literal", "[ 1, {X}, 3 ] : int", "arr"),
+    ("array-dims", "{[ {X} ]} : int", "arr"),
+    ("record-arg", "R({X})", "rec"),
+    ("match-arm", "match e { E::a -> {X}; E::b -> 2; E::c -> 3; }", "int"),
+    ("match-else-arm", "match e { E::a -> 1; else -> {X}; }", "int"),
+    ("match-scrutinee", "match i2e({X}) { E::a -> 1; else -> 2; }", "int"),
+    ("iflet-then", "if let (E::a = e) { {X} } else { 0 }", "int"),
+    ("iflet-else", "if let (E::a = e) { 0 } else { {X} }", "int"),
+    ("iflet-scrutinee", "if let (E::a = i2e({X})) { 1 } else { 0 }", "int"),
+    ("for-in-body", "for (i in [ 0 .. 2 ]) { {X} }", "int"),
+    ("for-in-bound", "for (i in [ 0 .. {X} ]) { 0 }", "int"),
+    ("for-in-array", "for (i in [ {X} ] : int) { 0 }", "int"),
+    ("for3-body", "for (v = 0; v < 2; v = v + 1) { {X} }", "int"),
+    ("for3-cond", "for (v = 0; v < {X}; v = v + 1) { 0 }", "int"),
+    ("for3-step", "for (v = 0; v < 2; v = v + {X}) { 0 }", "int"),
+    ("while-body", "while (false) { {X} }", "int"),
+    ("while-cond", "while ({X} < 0) { 0 }", "int"),
+    ("do-body", "do { {X} } while (false)", "int"),
+    ("do-cond", "do { 0 } while ({X} < 0)", "int"),
+    ("lambda-body", "let func (q : int) -> int { {X} }", "fun"),
+    ("lambda-catch", "let func (q : int) -> int { q } catch (division_by_zero) { {X} }", "fun"),
+    ("lambda-catch-all", "let func (q : int) -> int { q } catch { {X} }", "fun"),
+    ("nested-func-body", "{ func g(q : int) -> int { {X} }; g(1) }", "int"),
+    ("nested-func-catch", "{ func g(q : int) -> int { q } catch (nil_pointer) { {X} }; g(1) }", "int"),
+    ("range-lo", "[ {X} .. 9 ]", "rng"),
+    ("range-hi", "[ 0 .. {X} ]", "rng"),
+    ("slice-bound", "a[0 .. {X}]", "slc"),
+    ("string-concat-left", '{X} + "s"', "str"),
+    ("string-concat-right", '"s" + {X}', "str"),
+    ("call-arg", "f1({X})", "int"),
+    ("call-arg-2nd", "f2(1, {X})", "int"),
+    ("builtin-arg", "print({X})", "int"),
+    ("index", "a[{X}]", "int"),
+    ("cond-branch", "(b ? {X} : 0)", "int"),
+    ("cond-cond", "({X} > 0 ? 1 : 0)", "int"),
+    ("if-then", "if (b) { {X} } else { 0 }", "int"),
+    ("if-cond", "if ({X} > 0) { 1 } else { 0 }", "int"),
+    ("tuple-elem", "({X}, 1) : (int, int)", "tup"),
+    ("block-stmt", "{ {X}; 0 }", "int"),
+    ("block-let", "{ let t = {X}; t }", "int"),
+    ("neg", "-{X}", "int"),
+    ("arith-operand", "1 + {X}", "int"),
+    ("pipe", "{X} |> f1()", "int"),
+    ("assign-rhs", "(v = {X})", "int"),
+]
+CF_SINKS = ["let", "var", "discard", "return", "pass", "assign"]
+CF_HOSTS = ["func", "nested", "lambda", "catch"]
+# `var w = <const expression>` is itself an offence: the var sink does not apply to contexts whose value is
+# const (call results, while/do, an element of a `let` array, a block ending in a `let` name, an assignment:
+# measured on the unchanged tree; a context missing here shows up as a rejected well-typed program)
+CF_CONST_RESULT = {"call-arg", "call-arg-2nd", "pipe", "while-body", "while-cond", "do-body", "do-cond", "index",
+                   "block-let", "nested-func-body", "nested-func-catch", "assign-rhs"}
+
+
+def cf_program(ctxs, xexpr, sink, host, split=False):
+    """ctxs: outermost first.  -> (source, first line, last line of the statement holding the offence)"""
+    inner = "\n            %s\n        " % xexpr if split else xexpr
+    ty = "int"
+    for i, (_n, tmpl, t) in enumerate(reversed(ctxs)):
+        if i > 0:
+            inner = CF_TYPES[ty][2].replace("{C}", inner)
+        inner = tmpl.replace("{X}", inner)
+        ty = t
+    tytext, dflt, _proj = CF_TYPES[ty]
+    body = [CF_LOCALS]
+    if sink == "let":
+        body += ["let w = %s;" % inner, dflt]
+    elif sink == "var":
+        body += ["var w = %s;" % inner, dflt]
+    elif sink == "discard":
+        body += ["%s;" % inner, dflt]
+    elif sink == "return":
+        body += [inner]
+    elif sink == "pass":
+        body += ["s_%s(%s);" % (ty, inner), dflt]
+    else:
+        body += ["var w = %s;" % dflt, "w = %s;" % inner, dflt]
+    site = 1 if sink != "assign" else 2
+    s = Src()
+    s.add(CF_PRE)
+    params = "p : int, var pv : int"
+
+    def put_body(ind):
+        l0 = l1 = 0
+        for i, st in enumerate(body):
+            if i == site:
+                l0 = s.next_line()
+            l = s.add("\n".join(ind + x for x in st.split("\n")))
+            if i == site:
+                l1 = l
+        return l0, l1
+
+    if host == "func":
+        s.add("func host(%s) -> %s\n{" % (params, tytext))
+        l0, l1 = put_body("    ")
+        s.add("}")
+        s.add("func main() -> int\n{\n    0\n}")
+    elif host == "nested":
+        s.add("func main() -> int\n{")
+        s.add("    func host(%s) -> %s\n    {" % (params, tytext))
+        l0, l1 = put_body("        ")
+        s.add("    };\n    0\n}")
+    elif host == "lambda":
+        s.add("func main() -> int\n{")
+        s.add("    let host = let func (%s) -> %s\n    {" % (params, tytext))
+        l0, l1 = put_body("        ")
+        s.add("    };\n    0\n}")
+    else:
+        s.add("func host(%s) -> %s\n{\n    %s\n}\ncatch (wrong_array_size)\n{" % (params, tytext, dflt))
+        l0, l1 = put_body("    ")
+        s.add("}")
+        s.add("func main() -> int\n{\n    0\n}")
+    return s.text(), l0, l1
+
+
+def gen_context_family(rng, quick):
+    cases = []
+    n = [0]
+
+    def add(kind, off, ctxs, sink, host, split=False):
+        name, bad, good, rx = off if off else ("-", CF_GOOD, CF_GOOD, None)
+        x = bad if kind == "mutant" else good
+        src, l0, l1 = cf_program(ctxs, x, sink, host, split)
+        n[0] += 1
+        where = ">".join(c[0] for c in ctxs)
+        c = tcase("cf%d" % n[0], "cf", kind, name, "%s|%s|%s%s" % (where, sink, host, "|split" if split else ""),
+                  "reject" if kind == "mutant" else "accept", src, line=l0, msg=rx,
+                  extra={"cf": (name.split(":")[0], ctxs[0][0], sink, host, len(ctxs))})
+        c["l1"] = l1
+        cases.append(c)
+
+    def sinks_for(ctxs):
+        return [s for s in CF_SINKS if not (s == "var" and ctxs[0][0] in CF_CONST_RESULT)]
+
+    # 1. the complete grid offence x context x sink in a plain function; one cell in eight also with the
+    #    offending expression on a line of its own
+    for c in CF_CONTEXTS:
+        for sink in sinks_for([c]):
+            add("base", None, [c], sink, "func")
+            for off in CF_OFFENCES:
+                add("mutant", off, [c], sink, "func", split=(rng.random() < 0.125))
+    # 2. well-typed twin of every offence in every context (the offence, not its shape, is what is rejected)
+    for c in CF_CONTEXTS:
+        for off in CF_OFFENCES:
+            add("base", off, [c], rng.choice(sinks_for([c])), "func")
+    # 3. other hosts (nested function, lambda, catch clause): every context x sink, offences rotated / all
+    for host in CF_HOSTS[1:]:
+        for c in CF_CONTEXTS:
+            for sink in sinks_for([c]):
+                add("base", None, [c], sink, host)
+                offs = [rng.choice(CF_OFFENCES)] if quick else CF_OFFENCES
+                for off in offs:
+                    add("mutant", off, [c], sink, host, split=(rng.random() < 0.125))
+    # 4. two contexts deep: every ordered pair (outer, inner); the inner value is projected to int
+    for co in CF_CONTEXTS:
+        for ci in CF_CONTEXTS:
+            ss = sinks_for([co, ci])
+            sel = [rng.choice(ss)] if quick else ss
+            for sink in sel:
+                host = rng.choice(CF_HOSTS)
+                add("base", None, [co, ci], sink, host)
+                add("mutant", rng.choice(CF_OFFENCES), [co, ci], sink, host)
+    # 5. three deep, random
+    for _ in range(300 if quick else 3000):
+        cs = [rng.choice(CF_CONTEXTS) for _ in range(3)]
+        sink = rng.choice(sinks_for(cs))
+        host = rng.choice(CF_HOSTS)
+        add("base", None, cs, sink, host)
+        add("mutant", rng.choice(CF_OFFENCES), cs, sink, host)
+    return cases
+
+
+def run_context_family(ctx, drv, quick):
+    rng = random.Random((ctx.seed << 10) ^ 0xC06D)
+    cases = gen_context_family(rng, quick)
+    res = compile_all(ctx, drv, cases, "cf")
+    verdicts = collections.Counter()
+    faults = []
+    cells = collections.Counter()          # (offence, outermost context, sink) of judged mutants
+    t_os, t_cs, t_oc, t_host, t_depth = (collections.Counter() for _ in range(5))
+    accepted = collections.Counter()
+    reported = 0
+    for c in cases:
+        r = res.get(c["id"])
+        off, cname, sink, host, depth = c["cf"]
+        if r is None or r["kind"] is None or r["san"]:
+            faults.append({"id": c["id"], "op": c["op"], "context": c["ctx"], "end": (r or {}).get("end"),
+                           "sanitizer": bool(r and r["san"])})
+            verdicts["compiler-fault"] += 1
+            continue
+        if c["kind"] == "base":
+            if r["kind"] == "COMPILED":
+                verdicts["accepted-ok"] += 1
+            else:
+                verdicts["base-rejected"] += 1
+                ctx.correspondence_broken("context-family-positive-rejected",
+                                          {"id": c["id"], "op": c["op"], "context": c["ctx"], "errors": r["errs"][:4], "src": c["src"]})
+            continue
+        cells[(off, cname, sink)] += 1
+        t_os["%s | %s" % (off, sink)] += 1
+        t_cs["%s | %s" % (cname, sink)] += 1
+        t_oc["%s | %s" % (off, cname)] += 1
+        t_host[host] += 1
+        t_depth[depth] += 1
+        rx = re.compile(c["msg"])
+        if r["kind"] != "COMPILE_ERROR":
+            verdicts["ACCEPTED"] += 1
+            accepted["%s | %s" % (cname, sink)] += 1
+            if reported < 6:
+                before = len(ctx.violations)
+                ctx.violation("accepted:%s:in-%s:sink-%s" % (off, cname, sink),
+                              "ill-typed program accepted by the compiler: offence %s inside %s, value of the enclosing "
+                              "expression goes to: %s" % (c["op"], c["ctx"].split("|")[0], sink),
+                              {"case": c["id"], "operator": c["op"], "context": c["ctx"],
+                               "expected": "COMPILE_ERROR /%s/ on lines %d..%d" % (c["msg"], c["l0"], c["l1"]),
+                               "observed": {"outcome": r["kind"], "diagnostics": r["errs"][:5]}, "source": c["src"]})
+                reported += len(ctx.violations) - before
+            continue
+        on_site = [m for (ln, m) in r["errs"] if c["l0"] <= ln <= c["l1"]]
+        if not on_site:
+            verdicts["WRONG-LINE"] += 1
+            if reported < 6:
+                before = len(ctx.violations)
+                ctx.violation("wrong-line:%s:in-%s" % (off, cname),
+                              "diagnostic not reported at the offending line: offence %s inside %s" % (c["op"], c["ctx"]),
+                              {"case": c["id"], "operator": c["op"], "context": c["ctx"], "expected_lines": [c["l0"], c["l1"]],
+                               "observed": r["errs"][:5], "source": c["src"]})
+                reported += len(ctx.violations) - before
+            continue
+        if not any(rx.search(m) for m in on_site):
+            verdicts["kind-differs"] += 1
+            ctx.correspondence_broken("context-family-diagnostic-kind-differs",
+                                      {"id": c["id"], "op": c["op"], "context": c["ctx"], "expected": c["msg"],
+                                       "errors": r["errs"][:4], "src": c["src"]})
+            continue
+        verdicts["rejected-ok"] += 1
+    ctx.count(evaluations=sum(verdicts.values()), nontrivial=len(cells))
+    grid = len({o[0].split(":")[0] for o in CF_OFFENCES}) * sum(len([s for s in CF_SINKS if not (s == "var" and c[0] in CF_CONST_RESULT)])
+                                                               for c in CF_CONTEXTS)
+    ctx.coverage["context_family"] = {
+        "rule": "one-line offence (16 forms of the 12 offence kinds of the property, each with a well-typed twin) planted in the "
+                "int-typed hole of a context expression (%d contexts), 1-3 contexts deep, the value of the outermost expression "
+                "bound by let / var / discarded / returned / passed / assigned, inside a function / nested function / lambda / "
+                "catch clause; every mutant must be COMPILE_ERROR with the offence's diagnostic on the statement's lines, every "
+                "twin and every context x sink x host without offence must compile" % len(CF_CONTEXTS),
+        "verdicts": dict(verdicts),
+        "cells_offence_kind_x_context_x_sink": {"possible": grid, "covered": len(cells),
+                                                "min_cases_per_cell": min(cells.values()) if cells else 0,
+                                                "max_cases_per_cell": max(cells.values()) if cells else 0},
+        "offence_x_sink": dict(sorted(t_os.items())),
+        "context_x_sink": dict(sorted(t_cs.items())),
+        "offence_x_context": dict(sorted(t_oc.items())),
+        "mutants_per_host": dict(t_host), "mutants_per_depth": {str(k): v for k, v in sorted(t_depth.items())},
+        "accepted_cells_context_x_sink": dict(sorted(accepted.items())),
+        "compiler_faults": faults[:3], "compiler_fault_count": len(faults),
+    }
+    for c in [x for x in cases if x["kind"] == "mutant"][5:400:131]:
+        ctx.sample({"family_case": c["id"], "offence": c["op"], "context|sink|host": c["ctx"],
+                    "site_lines": [c["l0"], c["l1"]], "compiler": (res.get(c["id"]) or {}).get("errs", [])[:2],
+                    "statement": "\n".join(c["src"].split("\n")[c["l0"] - 1:c["l1"]])}, limit=12)
+
+
 def run_corpus(ctx, drv):
     cases = []
     meta = {}
@@ -819,6 +1162,8 @@ def run(ctx):
     quick = ctx.tier == "quick"
     run_text_families(ctx, drv, quick)
     ctx.notes["text_families_s"] = round(time.time() - t0, 1)
+    run_context_family(ctx, drv, quick)
+    ctx.notes["context_family_s"] = round(time.time() - t0, 1)
     nprog, kcap, nmatch = (320, 2, 120) if quick else (1600, 3, 500)
     cases_path = os.path.join(ctx.outdir, "cases.jsonl")
     rc, so, se = common.sh([RUN, "gen", str(ctx.seed), str(nprog), str(kcap), str(nmatch), cases_path], timeout=900)
